@@ -81,15 +81,12 @@ namespace adept {
     ~Storage() {
       internal::free_aligned(data_);
 #ifndef ADEPT_NO_AUTOMATIC_DIFFERENTIATION
-#ifdef ADEPT_RECORDING_PAUSABLE
-      if (ADEPT_ACTIVE_STACK->is_recording()) {
-#endif
-	if (gradient_index_ >= 0) {
-	  ADEPT_ACTIVE_STACK->unregister_gradients(gradient_index_, n_);
-	}
-#ifdef ADEPT_RECORDING_PAUSABLE
+      // Gradients are registered whether or not recording is paused,
+      // so are always unregistered; inactive data never consults
+      // the stack (there may be none)
+      if (gradient_index_ >= 0) {
+	ADEPT_ACTIVE_STACK->unregister_gradients(gradient_index_, n_);
       }
-#endif
 #endif
       internal::n_storage_objects_deleted_++; 
     }
